@@ -87,3 +87,92 @@ Lemma selection_guarded p (progs : list (list action)) :
 Proof.
   intros H Hin. apply forallb_forall. intros tr Htr. rewrite forallb_forall in H. apply H, Hin, Htr.
 Qed.
+
+(* ------------------------------------------------------------------ which lock guards which dataset
+   The discipline checked by [guarded] identifies a dataset with the lock that guards it (Beg r needs lock r).  Which lock that is,
+   is the code's business - one lock per dataset, or one lock for several datasets, both give mutual exclusion - so the generated
+   skeleton comes with a map [lk] from dataset ids to lock ids (inferred from the source), and the discipline is checked on the
+   program VIEWED through that map.  Mutual exclusion per lock class implies mutual exclusion per dataset of the class. *)
+Fixpoint relabel (lk : nat -> nat) (s : stmt) : stmt :=
+  let fix rl (l : list stmt) : list stmt := match l with [] => [] | s :: r => relabel lk s :: rl r end in
+  match s with
+  | SWith l b => SWith l (rl b)
+  | SAccess r => SAccess (lk r)
+  | STry b h f sw => STry (rl b) (rl h) (rl f) sw
+  | SIf a b => SIf (rl a) (rl b)
+  | SLocal => SLocal | SAcquire l => SAcquire l | SRelease l => SRelease l | SSharedWrite => SSharedWrite | SRaise => SRaise
+  end.
+Definition relabel_prog (lk : nat -> nat) (p : list stmt) : list stmt := map (relabel lk) p.
+Definition relabel_action (lk : nat -> nat) (a : action) : action :=
+  match a with Beg r => Beg (lk r) | End r => End (lk r) | a => a end.
+
+Section Relabel.
+Variable lk : nat -> nat.
+Let F (o : outc) : outc := (map (relabel_action lk) (fst o), snd o).
+
+(* induction principle that reaches into the nested statement lists *)
+Lemma stmt_ind_nested (P : stmt -> Prop) :
+  (forall l b, Forall P b -> P (SWith l b)) -> (forall r, P (SAccess r)) -> P SLocal -> (forall l, P (SAcquire l)) -> (forall l, P (SRelease l)) ->
+  (forall b h f sw, Forall P b -> Forall P h -> Forall P f -> P (STry b h f sw)) -> (forall a b, Forall P a -> Forall P b -> P (SIf a b)) ->
+  P SSharedWrite -> P SRaise -> forall s, P s.
+Proof.
+  intros HW HA HL HQ HR HT HI HS HX.
+  refine (fix IH (s : stmt) : P s :=
+    let fix IHl (l : list stmt) : Forall P l :=
+      match l with [] => Forall_nil P | x :: r => Forall_cons x (IH x) (IHl r) end in
+    match s with
+    | SWith l b => HW l b (IHl b)
+    | SAccess r => HA r
+    | SLocal => HL
+    | SAcquire l => HQ l
+    | SRelease l => HR l
+    | STry b h f sw => HT b h f sw (IHl b) (IHl h) (IHl f)
+    | SIf a b => HI a b (IHl a) (IHl b)
+    | SSharedWrite => HS
+    | SRaise => HX
+    end).
+Qed.
+
+Lemma relabel_list_eq l : (fix rl (l : list stmt) : list stmt := match l with [] => [] | s :: r => relabel lk s :: rl r end) l = map (relabel lk) l.
+Proof. induction l as [|s r IHr]; [reflexivity|]. cbn [map]. rewrite <- IHr. reflexivity. Qed.
+Lemma execs_inner_eq l : (fix execs (l : list stmt) : list outc := match l with [] => [([], false)] | s :: r => seqo (exec1 s) (execs r) end) l = execs l.
+Proof. induction l as [|s r IHr]; [reflexivity|]. cbn [execs]. rewrite <- IHr. reflexivity. Qed.
+
+Lemma seqo_F a b : seqo (map F a) (map F b) = map F (seqo a b).
+Proof.
+  unfold seqo. induction a as [|x a IHa]; [reflexivity|]. cbn [map flat_map]. rewrite map_app, <- IHa. f_equal.
+  unfold F at 1. cbn [snd fst]. destruct (snd x) eqn:E.
+  - cbn [map]. unfold F. rewrite E. reflexivity.
+  - rewrite !map_map. apply map_ext. intros y. unfold F. cbn [fst snd]. rewrite map_app. reflexivity.
+Qed.
+
+Lemma execs_relabel_from (l : list stmt) : Forall (fun s => exec1 (relabel lk s) = map F (exec1 s)) l ->
+  execs (map (relabel lk) l) = map F (execs l).
+Proof.
+  induction 1 as [|s r Hs Hr IHr]; [reflexivity|]. cbn [map execs]. rewrite Hs, IHr. apply seqo_F.
+Qed.
+
+Lemma exec1_relabel s : exec1 (relabel lk s) = map F (exec1 s).
+Proof.
+  induction s as [l b Hb|r| |l|l|b h f sw Hb Hh Hf|a b Ha Hb| |] using stmt_ind_nested; try reflexivity.
+  - (* SWith *) cbn [relabel exec1]. rewrite relabel_list_eq, (execs_inner_eq (map (relabel lk) b)), (execs_inner_eq b), (execs_relabel_from b Hb), !map_map.
+    apply map_ext. intros o. unfold F. cbn [fst snd map]. rewrite map_app. reflexivity.
+  - (* STry *) cbn [relabel exec1]. rewrite (relabel_list_eq b), (relabel_list_eq h), (relabel_list_eq f).
+    rewrite (execs_inner_eq (map (relabel lk) b)), (execs_inner_eq (map (relabel lk) h)), (execs_inner_eq (map (relabel lk) f)),
+            (execs_inner_eq b), (execs_inner_eq h), (execs_inner_eq f).
+    rewrite (execs_relabel_from b Hb), (execs_relabel_from h Hh), (execs_relabel_from f Hf).
+    generalize (execs b) (execs h) (execs f). intros B Hd Fi.
+    induction B as [|o B IHB]; [reflexivity|]. cbn [map flat_map]. rewrite map_app. f_equal; [|exact IHB].
+    change (snd (F o)) with (snd o). destruct (snd o).
+    + clear IHB. induction Hd as [|x Hd IHd]; [reflexivity|]. cbn [map flat_map]. rewrite map_app. f_equal; [|exact IHd].
+      rewrite !map_map. apply map_ext. intros y. unfold F. cbn [fst snd]. rewrite !map_app. reflexivity.
+    + rewrite !map_map. apply map_ext. intros y. unfold F. cbn [fst snd]. rewrite map_app. reflexivity.
+  - (* SIf *) cbn [relabel exec1]. rewrite (relabel_list_eq a), (relabel_list_eq b), (execs_inner_eq (map (relabel lk) a)), (execs_inner_eq (map (relabel lk) b)), (execs_inner_eq a), (execs_inner_eq b), (execs_relabel_from a Ha), (execs_relabel_from b Hb), map_app. reflexivity.
+Qed.
+
+(* the outcomes of the program viewed through the lock map are the outcomes of the program, viewed through the lock map *)
+Theorem execs_relabel p : execs (relabel_prog lk p) = map F (execs p).
+Proof. apply execs_relabel_from. apply Forall_forall. intros s _. apply exec1_relabel. Qed.
+Theorem traces_relabel p : traces (relabel_prog lk p) = map (map (relabel_action lk)) (traces p).
+Proof. unfold traces. rewrite execs_relabel, !map_map. reflexivity. Qed.
+End Relabel.
